@@ -2,6 +2,7 @@
 Decided statically: INDEX-PAIR (every index mutation is followed by the matching position-carrying notification),
 SINGLE-WRITER, CHILD-LINK, SNAPSHOT, ENCODING.  Not decided: replay over arbitrary histories."""
 import re
+from msa import guards as G
 from msa import pair as P
 from msa import ast as A
 from msa import cfg as C
@@ -260,12 +261,103 @@ def run(res, tier):
     res.ob('INDEX-OBSERVERS', f.where(), 'NodeCreated marks a new node with the number of matching subscription paths (GetMatchCount)', okm, function=f.q, key='INDEX-OBSERVERS|%s|matchcount' % f.q,
            message='NodeCreated no longer records how many of the session\'s subscription paths match the new node: the per-node mark is a per-path reference count, so removing one of two overlapping '
                    'subscriptions erases the session from the node\'s subscriber table and it stops receiving index updates it is still subscribed to')
+    round3_rules(res, fx)
     res.explanation = ('Static decision, on the resolved AST/CFG of DataNode.cpp and StorageReflectSession.cpp, of the pairing that makes the index update log replayable: %d mutation sites of '
                        'DataNode::_orderedIndex were found; each insert/remove is followed on every non-failure, non-quiet path by the notification with the matching op code and the same position '
                        'expression; nothing outside DataNode writes the index; RemoveChild unlinks the index entry first; the snapshot is clear + in-order inserts with the loop variable as position. '
                        'Replay over arbitrary histories is not decided.' % n_mut)
     res.assumptions = ['the notification routine transmits op, index and key unchanged (checked separately as ENCODING only for the op constants)']
     res.not_decided = ['equality of client and server index over arbitrary operation histories', 'timing/batching of update Messages']
+
+
+def _existence_only(g, c):
+    """the first dominating fact at call c that is not an existence test (non-null pointer / Ref, non-empty container, iterator has data); None if all are"""
+    for (a, t) in G.atoms_at(g, c):
+        a0 = A.strip_casts(a)
+        if a0.is_call() and (a0.get('q') or '').split('::')[-1] in ('HasItems', 'HasData', 'IsEmpty', 'operator()', 'GetItemPointer'):
+            continue
+        if a0['k'] in ('DeclRefExpr', 'MemberExpr') and (a0.type().rstrip().endswith('*') or 'Ref' in a0.type()):
+            continue
+        if any(l_['k'] in ('DeclRefExpr', 'MemberExpr') and l_.type().rstrip().endswith('*') and (r_['k'] in ('GNUNullExpr', 'CXXNullPtrLiteralExpr') or r_.get('v') == 0) for (l_, op_, r_) in A.rel_forms(a0, True) if op_ in ('==', '!=')):
+            continue
+        return a0
+    return None
+
+
+def round3_rules(res, fx):
+    SRS = 'muscle::StorageReflectSession'
+    # index instructions are generated by the server, so EVERY subscriber of the node — the originating session included — must get them (there is no reflect-to-self for index updates)
+    res.rule('INDEX-TO-ALL', 'NotifySubscribersThatNodeIndexChanged calls NodeIndexChanged on every subscriber that exists (no exclusion of the originating session); '
+                             'AfterMessageReceivedFromGateway pushes the buffered updates unconditionally (a snapshot sent by a later command of the same batch must not overtake them)', floor=2)
+    f = fx.fn1(SRS + '::NotifySubscribersThatNodeIndexChanged')
+    calls = P.calls(f, r'::NodeIndexChanged$')
+    if not calls:
+        raise AnalysisBroken('INDEX-TO-ALL: NodeIndexChanged call not found')
+    for c in calls:
+        bad = _existence_only(f, c)
+        # … and the call is not skipped by a disjunctive condition either: once the subscriber's session pointer is known to be non-null, the call lies on every path to the next iteration
+        rv = A.strip_casts(c.receiver()) if c.receiver() is not None else None
+        pc = P.pos_of(f, c)
+        lp = [hb for hb in C.natural_loops(f) if pc and pc[0] in hb[1]]
+        if bad is None and rv is not None and rv.get('d') is not None and lp:
+            (h_, body_) = min(lp, key=lambda hb: len(hb[1]))
+            for blk in f.blocks.values():
+                if blk.cond is None or blk.cond not in f.nodes or len(blk.succ) != 2 or blk.b not in body_:
+                    continue
+                n0, pol = P.strip_not(f.nodes[blk.cond], True)
+                if n0['k'] == 'DeclRefExpr' and n0.get('d') == rv['d']:
+                    tgt = blk.succ[0 if pol else 1]
+                    if tgt is not None and tgt >= 0 and tgt != pc[0] and C.can_reach(f, (tgt, -1), set([(h_, -1)]), avoid_points=set([pc])):
+                        # reachable without the call: is it through blocks of this iteration only?
+                        bad = f.nodes[blk.cond]
+                        cands = [f.nodes[b2.cond] for b2 in f.blocks.values() if b2.cond is not None and b2.cond in f.nodes and b2.b in body_ and b2.b != blk.b and C.can_reach(f, (tgt, -1), set([(b2.b, 0)])) and b2.b != h_]
+                        if cands:
+                            bad = cands[0]
+        res.ob('INDEX-TO-ALL', f.where(c), 'every existing subscriber is told about an index change', bad is None, function=f.q, key='INDEX-TO-ALL|%s' % f.q,
+               message='NotifySubscribersThatNodeIndexChanged tells a subscriber about an index change only under `%s`: a session that modifies an index it is itself subscribed to (without '
+                       'reflect-to-self) never sees its own inserts, moves and removals, so its replica of the index diverges from the server\'s' % (bad.text(60) if bad is not None else ''))
+    f = fx.fn1(SRS + '::AfterMessageReceivedFromGateway')
+    calls = P.calls(f, r'::PushSubscriptionMessages$')
+    bad = _existence_only(f, calls[0]) if calls else True
+    res.ob('INDEX-TO-ALL', f.where(), 'AfterMessageReceivedFromGateway pushes the subscription Messages unconditionally', bool(calls) and bad is None, function=f.q, key='INDEX-TO-ALL|%s|push' % f.q,
+           message='AfterMessageReceivedFromGateway pushes the buffered index/data updates only under `%s`: inside a batch, a snapshot requested by a later command is sent before the updates of the '
+                   'earlier commands, and replaying the log then applies them on top of a snapshot that already contains them' % (bad.text(50) if bad is not None and bad is not True else ''))
+    # FULL-SCAN: a search of the index by node name looks at every position
+    res.rule('FULL-SCAN', 'in DataNode.cpp a loop that compares (*_orderedIndex)[i]()->GetNodeName() with a name covers every index: descending from the last valid index while i >= 0, or ascending '
+                          'from 0 while i < count', floor=3)
+    n = 0
+    for g in sorted((g for g in fx.funcs.values() if g.full and g.file.endswith('reflector/DataNode.cpp')), key=lambda g: g.line):
+        for lp in (x for x in g.walk() if x['k'] == 'ForStmt'):
+            cl = A.counting_loop(lp)
+            if not cl:
+                continue
+            body = lp.role('body')
+            if body is None:
+                continue
+            # the body compares the name of the index entry at the loop variable
+            subs = [x for x in body.walk() if x['k'] == 'CXXOperatorCallExpr' and (x.get('q') or '').endswith('Queue::operator[]') and len(x['ch']) > 2 and A.strip_casts(x['ch'][2]).get('d') == cl['var']
+                    and any(y.get('n') == '_orderedIndex' for y in x['ch'][1].walk())]
+            if not subs or not any(x.is_call() and (x.get('q') or '').endswith('::GetNodeName') for x in body.walk()):
+                continue
+            if not any(x['k'] in ('CXXOperatorCallExpr', 'BinaryOperator') and ((x.get('q') or '').endswith('operator==') or x.get('op') == '==') and any(y in subs for y in x.walk()) for x in body.walk()):
+                continue
+            n += 1
+            st = A.strip_casts(cl['start']) if cl['start'] is not None else None
+            bd = A.strip_casts(cl['bound'])
+            full = False
+            if cl['step'] == -1 and st is not None:
+                from_last = any(y.is_call() and (y.get('q') or '').endswith('::GetLastValidIndex') for y in st.walk()) or \
+                    (st['k'] == 'BinaryOperator' and st.get('op') == '-' and A.strip_casts(st['ch'][1]).get('v') == 1 and any(y.is_call() and (y.get('q') or '').endswith('::GetNumItems') for y in st.walk()))
+                full = from_last and ((cl['op'] == '>=' and bd.get('v') == 0) or (cl['op'] == '>' and bd.get('v') == -1))
+            elif cl['step'] == 1 and st is not None:
+                full = st.get('v') == 0 and ((cl['op'] == '<' and any(y.is_call() and (y.get('q') or '').endswith('::GetNumItems') for y in bd.walk())) or
+                                             (cl['op'] == '<=' and any(y.is_call() and (y.get('q') or '').endswith('::GetLastValidIndex') for y in bd.walk())))
+            res.ob('FULL-SCAN', g.where(lp), '%s: the search of the index by name covers every position' % g.q.split('::')[-1], full, function=g.q, key='FULL-SCAN|%s|%s' % (g.q, n),
+                   how='start `%s`, while i %s %s, step %s' % (st.text(30) if st is not None else '?', cl['op'], bd.text(20), cl['step']),
+                   message='%s searches the ordered index with a loop from `%s` while i %s %s: some position (slot 0, or the last one) is never examined, so a child that sits there is not found — its '
+                           'entry is not removed from the index (the index names a node that no longer exists) or is listed twice after a move' % (g.q, st.text(30) if st is not None else '?', cl['op'], bd.text(20)))
+    if n < 3:
+        raise AnalysisBroken('FULL-SCAN: only %d name searches over the ordered index found in DataNode.cpp' % n)
 
 
 def snapshot_rule(res, f, ops):
